@@ -20,7 +20,9 @@ def register(CHECKS, H):
         quick.append({"unit": u, "args": ["--part", "order", "--nverts", "4", "--F", "0,1"]})
     quick.append({"unit": "c03_opt0", "args": ["--part", "mfnd", "--nverts", "4", "--F", "0,1"], "shards": 4})
     quick.append({"unit": "c03_tbb", "args": ["--part", "tbb", "--npts", "12", "--reps", "4"], "cores": 8})
-    thorough.append({"unit": "c03_opt0", "args": ["--part", "mfnd", "--nverts", "4", "--F", "0,1,2"], "shards": 16, "timeout": 3000})
+    # every assignment in {0,1,2}^simplices on every complex on 4 vertices with <= 12 simplices (3^15 for the full
+    # tetrahedron did not fit the thorough budget; the tetrahedron is covered with {0,1}^15 in the quick tier)
+    thorough.append({"unit": "c03_opt0", "args": ["--part", "mfnd", "--nverts", "4", "--F", "0,1,2", "--maxsimp", "12"], "shards": 16, "timeout": 3000})
     thorough.append({"unit": "c03_opt5", "args": ["--part", "mfnd", "--nverts", "4", "--F", "0,1"], "shards": 4})
     thorough.append({"unit": "c03_tbb", "args": ["--part", "tbb", "--npts", "14", "--reps", "20"], "cores": 16})
     CHECKS["C03"] = {
@@ -40,7 +42,7 @@ def register(CHECKS, H):
         "rule": ("case = one filtered complex (order / extend parts) or one arbitrary value assignment on a complex (mfnd part); "
                  "non-trivial = complex with at least one edge; ev.transitions counts comparator evaluations and API calls checked"),
         "bounds": {"quick": "3 vertices x {0,1,2,inf}; 4 vertices x {0,1} (order, mfnd); vertex functions {0,1,2,4}^V on every complex with <= 4 vertices (extend); 5 binaries incl. a GUDHI_USE_TBB build",
-                   "thorough": "4 vertices x {0,1,2} monotone (153 367) for 5 binaries; every assignment in {0,1,2}^simplices on every complex with <= 4 vertices (mfnd); parallel sort 100 runs on a 14-point complex"},
+                   "thorough": "4 vertices x {0,1,2} monotone (153 367) for 5 binaries; every assignment in {0,1,2}^simplices on every complex with <= 4 vertices and <= 12 simplices (mfnd); parallel sort 100 runs on a 14-point complex"},
         "assumptions": ["no NaN", "filtration cache is cleared/initialised by the caller after modifications, as documented"],
         "runs": {"quick": quick, "thorough": thorough},
     }
